@@ -463,6 +463,7 @@ func checkC10(r *Report) {
 		r.bad("C10.c/CANON-PURE", "pypi.CanonVersion", "", "function not found: anchor lost")
 	}
 	parsedNumberFitsRule(r, p, "C10.d/PARSED-NUMBER-FITS", "semver")
+	firstSepRule(r, p, "C10.e/FIRST-ELEMENT-SEP")
 	// positive control for FOLD-AGREE: the NuGet fold in Canon must be seen
 	if f := p.lookupFn("(*semver.Version).Canon"); f != nil {
 		r.floor("C10.b/FOLD-AGREE", "fields case-folded by (*Version).Canon", len(foldedFields(p, f, pkg)), 1)
